@@ -4,7 +4,8 @@ G.1 / G.2 -- no hidden state between calls.  Every property is quantified over *
 combination, sequence of operations): a result that depends on what an earlier call did breaks it without any single
 call looking wrong.  Decided structurally on the property's anchor files:
 
-G.1  a module-level mutable container that a function of the anchor files fills under a key (`G[k] = v`,
+G.1  (also: a key built from `id(obj)` is never sound -- identities are reused and ignore in-place changes.)
+     a module-level mutable container that a function of the anchor files fills under a key (`G[k] = v`,
      `G.setdefault(k, v)`) is a memo table: every parameter the stored value depends on -- through the value term, the
      path condition of the store, and, for accumulators, every event that fills them including their loops' iterables and
      break conditions -- must occur in the key.  Otherwise a later call with a different value of the missing parameter
@@ -75,8 +76,9 @@ def _deps(s: Summary, t, seen=None) -> Set[str]:
     return out
 
 
-def _scan(index: Index, summ: Summaries, relfiles: List[str]):
-    """-> (findings, number of functions scanned).  A finding is (rule, file, function, construct, message, line)."""
+def _scan(index: Index, summ: Summaries, relfiles: List[str], scope=None):
+    """-> (findings, number of functions scanned).  A finding is (rule, file, function, construct, message, line).
+    scope: qualified names ('mod:func' / 'mod:Class.meth') to restrict the scan to (None = every function of the files)."""
     cands: Dict[str, ast.AST] = {}
     for m in index.modules.values():
         for name, defs in m.defs.items():
@@ -98,6 +100,8 @@ def _scan(index: Index, summ: Summaries, relfiles: List[str]):
             for mname, fns in ci.methods.items():
                 units.append((f"{ci.name}.{mname}", ci, fns[-1]))
         for qn, ci, fn in units:
+            if scope is not None and f"{m.name}:{qn}" not in scope:
+                continue
             try:
                 s = summ.of_node(m, fn, f"{m.name}:{qn}", ci) if ci is not None else summ.of_func(m.name, qn)
             except (AnalysisError, RecursionError):
@@ -135,6 +139,14 @@ def _scan(index: Index, summ: Summaries, relfiles: List[str]):
                                      f"{qn} accumulates into the module-level container {gname} ({show(e.term)[:70]}): the state survives the "
                                      f"call, so a later call sees what earlier calls left behind", e.lineno))
                     continue
+                ids = [x for x in walk(key) if x[0] == "call" and x[1] == ("builtin", "id") and len(x[2]) == 1]
+                if ids:
+                    findings.append(("G.1", m.relpath, qn, f"{gname}[{show(key)[:50]}] = ...",
+                                     f"{qn} memoises in the shared table {gname} under a key built from `{show(ids[0])}`: the identity of an "
+                                     f"object is reused once it is freed and says nothing about its contents, so a later, different "
+                                     f"{show(ids[0][2][0])} (or the same one after it was changed in place) is answered with the stale entry",
+                                     e.lineno))
+                    continue
                 guards = [c for c in conjuncts(e.live) if not any(y == tgt for y in walk(c)) and c[0] != "inloop"]
                 need = _deps(s, val)
                 for g in guards:
@@ -152,6 +164,8 @@ def _scan(index: Index, summ: Summaries, relfiles: List[str]):
             continue
         for ci in m.classes.values():
             if any(b.split(".")[-1] in ("BaseModel", "NamedTuple", "Enum", "TypedDict") for c in ci.mro() for b in c.ext_bases):
+                continue
+            if scope is not None and not any(q.startswith(f"{m.name}:{ci.name}.") for q in scope):
                 continue
             shared = {}
             for st in ci.node.body:
@@ -210,7 +224,7 @@ def _fixture_fires() -> bool:
         rel = os.path.join("src", "soundevent", "_shared_state_fixture.py")
         try:
             ix = Index(_ROOT[0], {rel: src})
-            f, _ = _scan(ix, Summaries(ix), [rel])
+            f, _ = _scan(ix, Summaries(ix), [rel], None)
             _FIXTURE_OK = {r for r, *_ in f} == {"G.1", "G.2"}
         except Exception:  # noqa: BLE001
             _FIXTURE_OK = False
@@ -228,7 +242,16 @@ def check_shared_state(ctx: Ctx, files: List[str]):
         ctx.undec("G.1", "fixtures/shared_state.py", "the positive fixture is not reported: the shared-state rules cannot fire")
         return
     relfiles = [f for f in files]
-    findings, n = _scan(ctx.index, ctx.summ, relfiles)
+    # scope: the functions this property's rules summarised, and every helper spliced into them
+    scope = set()
+    for q, sm_ in list(ctx.summ._cache.items()):
+        scope.add(q.replace(".", ":", 0))
+        scope.add(sm_.qual)
+        scope |= set(sm_.inlined)
+        for ls in sm_.lambdas.values():
+            scope |= set(ls.inlined)
+    scope = {q if ":" in q else q for q in scope}
+    findings, n = _scan(ctx.index, ctx.summ, relfiles, scope)
     for rule, file, func, construct, msg, line in findings:
         ctx.bad(rule, file, func, construct, msg, line)
     ctx.ok("G.1", f"{len(relfiles)} anchor file(s)", f"{n} functions scanned; positive fixture reported")
